@@ -94,6 +94,10 @@ type ConcCase struct {
 	Jitter   []int                 `json:"jitter"` // spin iterations before each thread's first call
 	// GoMaxProcs > 0: the child runs on that many Ps (the threads then share per-P state of the runtime, such as pools).
 	GoMaxProcs int `json:"gomaxprocs,omitempty"`
+	// CompileBeside: while the loads run, another goroutine keeps compiling the policies named "beside<k>" (small ones,
+	// one of exactly 4096 instructions, oversize ones) and compares every result with what the same policy gave before
+	// the first load began.
+	CompileBeside bool `json:"compile_beside,omitempty"`
 	// HookSleepMicros > 0: every load sleeps that long at the hook between prctl and the seccomp call, so that other
 	// loads run in between (an injected delay between two steps of one call, not inside a critical section).
 	HookSleepMicros int `json:"hook_sleep_micros,omitempty"`
